@@ -432,9 +432,9 @@ func errS(err error) string {
 }
 
 var linOps = map[string]linOp{
-	"addhard":   {"addhard", func(w *linWorld) string { return errS(w.y.AddHardCert(w.cert, "yk")) }},
-	"removeall": {"removeall", func(w *linWorld) string { return errS(w.y.RemoveAll()) }},
-	"removekey": {"removekey", func(w *linWorld) string { return errS(w.y.Remove(w.pub)) }},
+	"addhard":    {"addhard", func(w *linWorld) string { return errS(w.y.AddHardCert(w.cert, "yk")) }},
+	"removeall":  {"removeall", func(w *linWorld) string { return errS(w.y.RemoveAll()) }},
+	"removekey":  {"removekey", func(w *linWorld) string { return errS(w.y.Remove(w.pub)) }},
 	"removecert": {"removecert", func(w *linWorld) string { return errS(w.y.Remove(w.cert)) }},
 	"uremovekey": {"uremovekey", func(w *linWorld) string { return errS(w.ring.Remove(w.pub)) }},
 	"addkey": {"addkey", func(w *linWorld) string {
@@ -451,8 +451,8 @@ var linOps = map[string]linOp{
 	}},
 	// raw requests whose size sits on or next to a power of two (the upstream agent answers an
 	// unknown code with a failure byte)
-	"fwd511": {"fwd511", func(w *linWorld) string { return fwdN(w, 511) }},
-	"fwd512": {"fwd512", func(w *linWorld) string { return fwdN(w, 512) }},
+	"fwd511":  {"fwd511", func(w *linWorld) string { return fwdN(w, 511) }},
+	"fwd512":  {"fwd512", func(w *linWorld) string { return fwdN(w, 512) }},
 	"fwd4096": {"fwd4096", func(w *linWorld) string { return fwdN(w, 4096) }},
 	"sign": {"sign", func(w *linWorld) string {
 		_, err := w.y.Sign(w.cert, []byte("data"))
